@@ -63,11 +63,21 @@ def strategy():
         st.tuples(st.just("enter"), st.integers(0, 2), st.sampled_from(["parallel_config", "parallel_config", "parallel_backend"]), _settings()).map(list),
         st.tuples(st.just("enter"), st.integers(0, 2), st.sampled_from(["parallel_config", "parallel_config", "parallel_backend"]), _settings()).map(list),
         st.tuples(st.just("exit"), st.integers(0, 2), st.booleans()).map(list),
+        # a with statement left by an exception raised while the context manager is being created (unknown backend name)
+        st.tuples(st.just("enter_fail"), st.integers(0, 2), st.sampled_from(["parallel_config", "parallel_backend"]), _settings()).map(list),
         st.tuples(st.just("construct"), st.integers(0, 2), _settings()).map(list),
         st.tuples(st.just("construct"), st.integers(0, 2), _settings()).map(list),
         st.tuples(st.just("observe"), st.integers(0, 2)).map(list),
     )
-    return st.fixed_dictionaries({"rules": st.lists(rule, min_size=1, max_size=30)})
+    # a frequent real-life chain as one unit: a context naming a backend and n_jobs, a Parallel that needs another kind of
+    # backend (fallback paths inside joblib), then plain Parallel objects that must still see the context's settings
+    chain = st.tuples(st.integers(0, 2), st.sampled_from(BACKENDS), st.sampled_from([2, 3, 5]),
+                      st.sampled_from([[["require", "sharedmem"]], [["prefer", "threads"]], [["prefer", "processes"]], [["require", None]]]),
+                      _settings(with_backend=False)).map(
+        lambda c: [["enter", c[0], "parallel_config", [["backend", c[1]], ["n_jobs", c[2]]]], ["construct", c[0], c[3]],
+                   ["construct", c[0], []], ["construct", c[0], c[4]], ["exit", c[0], False]])
+    units = st.one_of(rule.map(lambda r: [r]), rule.map(lambda r: [r]), rule.map(lambda r: [r]), chain)
+    return st.fixed_dictionaries({"rules": st.lists(units, min_size=1, max_size=24).map(lambda us: [r for u in us for r in u][:40])})
 
 
 _registered = []
@@ -237,7 +247,14 @@ def run_case(spec):
     nontrivial = False
     classes = []
     try:
+        def _reset():
+            # every case starts from joblib's defaults: a violation found by the previous case (contexts left open, or a
+            # leak that is the defect itself) must not reach this one.  T1/T2 are new threads anyway; this is for the main thread
+            from joblib import parallel as _p
+            if hasattr(_p._backend, "config"):
+                del _p._backend.config
         for t in range(3):
+            threads[t].call(_reset)
             last_obs[t] = threads[t].call(_observe)
             if last_obs[t] != ["LokyBackend", None, None]:
                 raise HarnessError("thread %d does not start from the defaults: %r (state leaked between cases)" % (t, last_obs[t]))
@@ -281,6 +298,32 @@ def run_case(spec):
                 if sum(1 for s in stacks if s) >= 2:
                     nontrivial = True
                     classes.append("contexts-open-in-two-threads")
+            elif op == "enter_fail":
+                kind, settings = rule[2], dict((k, v) for k, v in rule[3] if k != "backend")
+                if kind == "parallel_backend":
+                    settings = {k: v for k, v in settings.items() if k == "n_jobs"}
+                before = threads[t].call(_observe)
+
+                def _enter_fail(kind=kind, settings=settings):
+                    cls = getattr(joblib, kind)
+                    try:
+                        if kind == "parallel_backend":
+                            with cls("vf_no_such_backend", **settings):
+                                return "entered"
+                        else:
+                            with cls(backend="vf_no_such_backend", **settings):
+                                return "entered"
+                    except Exception as e:
+                        return type(e).__name__
+                r = threads[t].call(_enter_fail)
+                if r == "entered":
+                    raise Violation("%s with an unknown backend name was accepted; %s" % (kind, where), signature=["enter-raises"])
+                after = threads[t].call(_observe)
+                if after != before:
+                    raise Violation("a with statement whose context manager failed to build (%s(backend=<unknown>, %r) raised %s) changed what the "
+                                    "thread observes: %r -> %r; %s" % (kind, settings, r, before, after, where), signature=["not-restored"])
+                if settings:
+                    classes.append("failed-enter-with-settings")
             elif op == "exit":
                 if not stacks[t]:
                     continue
